@@ -24,7 +24,7 @@ from checks import common, plug
 PROPERTY = "C04"
 LEVEL = "exploration"
 MODES = ["O0"]
-TIERS = {"quick": {"runs": 1500, "wall": 55}, "thorough": {"runs": 30000, "wall": 1500}}
+TIERS = {"quick": {"runs": 2500, "wall": 55}, "thorough": {"runs": 30000, "wall": 1500}}
 RULE = ("plan = 2..5 seeded PELs (payload sizes 1..65527 with boundary sizes 15/16/17 and occasional maxima) whose "
         "UD/ED/unknown sections meet a seeded decoder environment: builtin formats, fake plugins with per-call fault "
         "tables (ok/raise/None/ImportError/KeyError), modules absent or failing at import, -P; decoded with -f and "
